@@ -28,87 +28,3 @@ for _f in sorted(glob.glob(os.path.join(_here, "registry.d", "C*.py"))):
     with open(_f) as _fh:
         exec(compile(_fh.read(), _f, "exec"), {"PROPS": PROPS, "HARNESS_PKG": HARNESS_PKG, "SHARED_PKGS": SHARED_PKGS, "NOT_CLAIMED": NOT_CLAIMED})
 
-PROPS["C15"] = dict(
-    level="exploration",
-    level_text="Metamorphic two-run differential in virtual time (testing/synctest): run A = fresh daemon with policy program P1, 2-4 scripted speakers "
-               "(eBGP / one iBGP / route-server clients / mixed) announce 20-200 IPv4+IPv6 routes, the policy is changed to P2 through the management API, "
-               "the corresponding soft reset (ResetPeer soft in|out|both, one peer or all) or ROUTE-REFRESH from the speaker(s) follows, then the same reset "
-               "once more; run B = fresh daemon with P2 in force before the first route. At exact quiescence Loc-RIB (global and per route-server client, "
-               "path sets, attributes, best flag), ADJ_IN raw and with filtered flags, ADJ_OUT and every speaker's accumulated wire view must be identical; "
-               "in 30% of the pairs the speakers keep announcing/replacing/withdrawing from their own goroutines (with scheduler yields at gobgp's lock-free "
-               "points) while the change and/or the reset run and B is fed with the final route set. Exploration: (P1, P2, routes, reset, schedule) are sampled.",
-    level_note="Run B (gobgp itself under P2 from the start) is the reference: that a fresh evaluation applies the policy correctly is C10, that the "
-               "Loc-RIB picks the right best path is C03. Route timestamps are made irrelevant: all routes of a run arrive at one virtual instant and the "
-               "generated routes are totally ordered by the decision process (unique first AS per source, import prepend only of the left-most AS unless "
-               "always-compare-med). For a reset aimed at one peer the change is confined to that peer (per-client assignment of a route-server client, "
-               "or statements guarded by a neighbour set holding only that peer). A peer whose wire view already differs from gobgp's fresh ADJ_OUT "
-               "before the change (run A) or in run B (that is property C01, counted under precondition_*) is left out of the wire comparison.",
-    technique="runtime metamorphic monitor: state after (policy change + soft reset / route refresh) vs fresh daemon under the new policy, plus idempotence "
-              "monitor on the repeated reset (views unchanged, every UPDATE a plain re-advertisement), at exact quiescence in virtual time",
-    rule="case = one (topology, routes, P1, change, reset) pair: P1 = 6-7 defined sets per direction (prefix sets with mask ranges, neighbour, AS-path "
-         "single-AS forms + regexps, community), 4-7 policies x 1-3 statements per direction (conditions: the sets with any/all/invert, as-path-length, "
-         "community-count; actions accept/reject/continue + community add/remove/replace, MED set/+/-, local-pref, AS-path prepend, next-hop), "
-         "assignments global and per route-server client with either default; change kind in {assign-set, assign-add, assign-del, default-flip, "
-         "defset-add, defset-del, defset-replace, policy-add-stmt, policy-del-stmt} x {import, export, both}; non-trivial iff gobgp's own states under "
-         "P1 and under P2 on the same inputs differ on >=1 route; distinct by (changed-verdict pattern set, reset kind, change kind(s), racing)",
-    assumptions=["'the current policy' is what the management API reports after the change (AddDefinedSet with replace = the set now has the new members; "
-                 "AddPolicyAssignment appends; AddPolicy on an existing policy appends statements; DeletePolicy/DeleteDefinedSet without 'all' remove the named members)",
-                 "a repeated reset may re-send routes, but only as they are already held by the peer (no withdraw of a held route, no changed attributes, no new route)",
-                 "DeletePolicyAssignment(all), deleting sets/policies/statements entirely, ADD-PATH sessions, VRF/VPN families and locally originated routes are not generated"],
-    must_count=["nontrivial_pairs", "pairs_equal", "repeat_checks", "racing_cases", "routes_compared",
-                "reset_soft-in_one", "reset_soft-in_all", "reset_soft-out_one", "reset_soft-out_all", "reset_soft-both_all", "reset_route-refresh_one", "reset_route-refresh_all",
-                "change_assign-set_import", "change_assign-add_import", "change_assign-del_import", "change_default-flip_import", "change_defset-add_import",
-                "change_defset-del_import", "change_policy-add-stmt_import", "change_policy-del-stmt_import",
-                "change_assign-set_export", "change_assign-add_export", "change_assign-del_export", "change_default-flip_export", "change_defset-add_export",
-                "change_defset-del_export", "change_policy-add-stmt_export", "change_policy-del-stmt_export",
-                "pattern_in:accept->reject", "pattern_in:reject->accept", "pattern_in:attrs-changed", "pattern_out:accept->reject", "pattern_out:reject->accept",
-                "pattern_out:attrs-changed", "topology_plain", "topology_route_server", "topology_mixed"],
-    min_nontrivial=20,
-    units=[dict(name="sim", harness="t_server", files=["sim_", "c15_"], run="TestVerifC15",
-                shards=dict(quick=16, thorough=16), timeout_s=dict(quick=1200, thorough=10800))],
-)
-
-
-PROPS["C06"] = dict(
-    level="fault_enumeration",
-    level_text="Fault enumeration at two layers. Layer 1 runs gobgp's real receive loop (fsmHandler.recvMessageloop: recvMessageWithError -> ParseBGPBody -> "
-               "ValidateUpdateMsg -> handlingError -> NOTIFICATION or callback, then table.ProcessMessage as peer.handleUpdate calls it) on UPDATEs laid out "
-               "octet by octet by the harness: 40 well-formed base UPDATEs (v4, v6 MP_REACH, mixed, withdraw-only, optional attributes, ADD-PATH) x a "
-               "catalogue of 129 faults (per attribute: bad length short/long/zero, bad flags, bad value, duplicate, missing mandatory; attribute block and "
-               "message framing; NLRI syntax) x every index of the faulty attribute x {eBGP, iBGP, confederation} x treat-as-withdraw on/off, plus pairs of "
-               "faults. Layer 2 repeats every catalogue entry end to end (whole BgpServer in virtual time, injecting speaker + listening third speaker; "
-               "observed: NOTIFICATION octets, session state, ListPath ADJ_IN / GLOBAL, the third speaker's accumulated view). Oracle: an allowed-set table "
-               "written from RFC 7606 s3-s7, RFC 4271 s6.3, RFC 4760 s7, RFC 5065 s5, RFC 6793 s6, RFC 8092, plus metamorphic relations (monotonicity under "
-               "a second fault, position independence, no penalty for base UPDATEs in every attribute rotation) and end-effect checks (after treat-as-withdraw "
-               "every named prefix is gone; no installed route carries the injected attribute or lacks ORIGIN / AS_PATH / next hop).",
-    level_note="Fault enumeration is the right level: the property quantifies over a finite catalogue x positions x pairs x configurations, which is enumerated "
-               "rather than sampled at layer 1. Trusts the harness' reading of the RFCs (the table accepts every outcome a MAY/SHOULD or two overlapping RFC 7606 "
-               "rules permit). Sessions negotiate four-octet AS numbers (no AS_TRANS / 2-octet peers), ipv4-unicast + ipv6-unicast only, no extended messages. "
-               "treat-as-withdraw 'off' is set white-box in the peer configuration before the session establishes (the API cannot express it); the TOML "
-               "configuration path is not exercised.",
-    technique="runtime monitor of the real receive loop (layer 1) and of a whole server in virtual time (layer 2) over an enumerated fault catalogue; reference "
-              "allowed-set table + metamorphic relations + end-effect checks",
-    rule="layer-1 case = (base, fault) over every attribute index x 6 sessions, or a pair of faults at PRNG indices x 6 sessions together with its two single-fault "
-         "messages; layer-2 case = one session (prelude of valid routes, one faulty UPDATE, observation at quiescence). Non-trivial iff an independent framing "
-         "reader finds every injected fault in the octets sent; distinct by (layer, fault ids, base, positions, peer type, treat-as-withdraw)",
-    exhaustive_note="Enumerated completely (both tiers): at layer 1 every single fault of the catalogue x every base UPDATE x every attribute index x {eBGP, iBGP, "
-                    "confederation} x treat-as-withdraw {on, off} (ADD-PATH on/off follows the base), and every base x every rotation of its attributes x the 6 "
-                    "sessions; at layer 2 every (catalogue entry, peer type, treat-as-withdraw) once and every base once per peer type. Thorough additionally "
-                    "enumerates every unordered pair of catalogue entries x every base x 6 sessions at layer 1 (attribute indices PRNG-drawn). Sampled: fault "
-                    "pairs at layer 1 in the quick tier (5000 PRNG (base, pair) draws x 6 sessions), base / index choice and all pairs at layer 2.",
-    assumptions=["reactions are ordered none < attribute discard < treat-as-withdraw < session reset; AFI/SAFI disable (RFC 4760 s7) is admitted wherever a reset is",
-                 "RFC 7606 s3.c names the Optional and Transitive bits only: a wrong Partial bit may be ignored, treated as withdraw or reset",
-                 "where RFC 7606 s3.c and s3.f overlap (flag errors of ATOMIC_AGGREGATE / AGGREGATOR) discard and treat-as-withdraw are both admitted",
-                 "LOCAL_PREF / ORIGINATOR_ID / CLUSTER_LIST from a confederation-external member: both readings of 'external neighbor' admitted",
-                 "RFC 4271 s6.3 leftmost-AS check is a MAY: accepting the route is admitted; a loopback NEXT_HOP may be accepted",
-                 "an attribute that overruns the attribute block hides MP_REACH/MP_UNREACH attributes behind it (RFC 7606 s5.1): their prefixes are then not required to be withdrawn",
-                 "with revised handling off, RFC 6793's discard of malformed AS4_PATH / AS4_AGGREGATOR and a reset are both admitted",
-                 "a withdraw-only message cannot tell none / discard / treat-as-withdraw apart end to end: any of them is accepted there"],
-    must_count=["l1_single_evaluations", "l1_pair_evaluations", "l1_base_evaluations", "l1_position_groups", "l2_sessions", "l2_base_sessions", "l2_pair_sessions",
-                "l2_third_peer_checks", "l1_peer_ebgp", "l1_peer_ibgp", "l1_peer_confed", "l1_taw_on", "l1_taw_off", "l2_peer_ebgp", "l2_peer_ibgp",
-                "l2_peer_confed", "l2_taw_on", "l2_taw_off", "l1_addpath_sessions", "l2_addpath_sessions", "l1_react_reset", "l1_react_taw", "l1_react_discard",
-                "l2_react_reset", "l2_react_taw", "l2_react_discard", "catalogue_entries"],
-    min_nontrivial=1000,
-    units=[dict(name="server", harness="t_server", files=["sim_", "c06_"], run="TestVerifC06",
-                shards=dict(quick=16, thorough=16), timeout_s=dict(quick=1200, thorough=10800))],
-)
